@@ -169,6 +169,17 @@ func MakeAF(kind string, idx int) *astits.PacketAdaptationField {
 	case "noroom":
 		p := payloadFor(idx+2000, 170, 7)
 		return &astits.PacketAdaptationField{HasTransportPrivateData: true, TransportPrivateData: p, TransportPrivateDataLength: len(p)}
+	case "noroompcr": // no room for the PES header, and the field carries a PCR
+		p := payloadFor(idx+2100, 164, 7)
+		return &astits.PacketAdaptationField{HasPCR: true, PCR: cr(int64(idx)*3003+7, 5), HasTransportPrivateData: true, TransportPrivateData: p, TransportPrivateDataLength: len(p)}
+	case "noroomrai": // no room, random access + PCR + OPCR + splice countdown
+		p := payloadFor(idx+2200, 157, 7)
+		return &astits.PacketAdaptationField{RandomAccessIndicator: true, HasPCR: true, PCR: cr(int64(idx)*3003+9, 1), HasOPCR: true, OPCR: cr(3, 3), HasSplicingCountdown: true, SpliceCountdown: 2,
+			HasTransportPrivateData: true, TransportPrivateData: p, TransportPrivateDataLength: len(p)}
+	case "noroomstuff": // no room because of the caller's own stuffing
+		return &astits.PacketAdaptationField{StuffingLength: 172}
+	case "noroomstuffpcr":
+		return &astits.PacketAdaptationField{HasPCR: true, PCR: cr(int64(idx)*3003+11, 2), StuffingLength: 170}
 	case "splice":
 		return &astits.PacketAdaptationField{HasSplicingCountdown: true, SpliceCountdown: 5, ElementaryStreamPriorityIndicator: true}
 	case "ext":
